@@ -25,6 +25,19 @@ const MiB = 1 << 20
 type params struct {
 	Enc   bool   `json:"enc"`
 	Sweep *sweep `json:"sweep,omitempty"`
+	Comp  *comp  `json:"comp,omitempty"`
+}
+
+// comp is one cell of the exhaustive enumeration of compositions of a short message:
+// a message of Len bytes is cut after byte i+1 for every set bit i of Mask; EmptyAt >= 0
+// additionally inserts a zero-length write before that piece (== number of pieces: after the last).
+type comp struct {
+	Len     int `json:"len"`
+	Mask    int `json:"mask"`
+	EmptyAt int `json:"empty_at"`
+	SendAPI int `json:"send_api"`
+	RecvAPI int `json:"recv_api"`
+	Before  int `json:"msgs_before"`
 }
 
 // sweep is one cell of the exhaustive threshold sweep.
@@ -430,7 +443,30 @@ func run(s *kernel.Sim, c *scen.Case) {
 	ctx := context.Background()
 	var plans [2][]*msgPlan
 	cfg := simnet.DrawConfig(t)
-	if p.Sweep != nil {
+	if p.Comp != nil {
+		c := p.Comp
+		for i := 0; i < c.Before; i++ {
+			plans[0] = append(plans[0], &msgPlan{size: 10, sendAPI: sendSingle, recvAPI: recvComplete, body: fill(t, 10, byte(i))})
+		}
+		m := &msgPlan{size: c.Len, sendAPI: c.SendAPI, recvAPI: c.RecvAPI, body: fill(t, c.Len, 0x42)}
+		piece := 0
+		for i := 0; i < c.Len; i++ {
+			piece++
+			if i == c.Len-1 || c.Mask&(1<<uint(i)) != 0 {
+				m.cuts = append(m.cuts, piece)
+				piece = 0
+			}
+		}
+		if c.EmptyAt >= 0 {
+			at := c.EmptyAt
+			if at > len(m.cuts) {
+				at = len(m.cuts)
+			}
+			m.cuts = append(m.cuts[:at:at], append([]int{0}, m.cuts[at:]...)...)
+		}
+		plans[0] = append(plans[0], m)
+		plans[0] = append(plans[0], &msgPlan{size: 3, sendAPI: sendSingle, recvAPI: recvComplete, body: []byte("end")})
+	} else if p.Sweep != nil {
 		for d := 0; d < 2; d++ {
 			for i := 0; i < p.Sweep.First; i++ {
 				plans[d] = append(plans[d], &msgPlan{size: 10, sendAPI: sendSingle, recvAPI: recvComplete, body: fill(t, 10, byte(i))})
@@ -659,6 +695,52 @@ var scenarios = []*scen.Scenario{
 						for sz := lo; sz <= hi; sz += step {
 							if !g.Emit(scen.Case{Seed: g.Seed*1000003 + uint64(sz), Params: scen.Params(params{Enc: enc, Sweep: &sweep{Size: sz, SendAPI: api, First: first}})}) {
 								return
+							}
+						}
+					}
+				}
+			}
+		},
+		Run: run,
+	},
+	{
+		Name:       "compositions",
+		Enumerated: true,
+		Gen: func(g *scen.Gen) {
+			// every composition of every short message (0..6 bytes), alone and with one empty
+			// write at every position, x the three multi-write sender APIs x every receive API
+			// x both modes, as the first message of the connection and after another one
+			maxLen := 6
+			if g.Quick() {
+				maxLen = 5
+			}
+			n := uint64(0)
+			for _, enc := range []bool{true, false} {
+				for _, api := range []int{sendWrite, sendPartial, sendTypedB} {
+					for rapi := 0; rapi < nRecvAPIs; rapi++ {
+						for before := 0; before < 2; before++ {
+							for l := 0; l <= maxLen; l++ {
+								masks := 1
+								if l > 1 {
+									masks = 1 << uint(l-1)
+								}
+								for mask := 0; mask < masks; mask++ {
+									pieces := 1
+									for b := 0; b < l-1; b++ {
+										if mask&(1<<uint(b)) != 0 {
+											pieces++
+										}
+									}
+									if l == 0 {
+										pieces = 0
+									}
+									for empty := -1; empty <= pieces; empty++ {
+										n++
+										if !g.Emit(scen.Case{Seed: g.Seed*999983 + n, Params: scen.Params(params{Enc: enc, Comp: &comp{Len: l, Mask: mask, EmptyAt: empty, SendAPI: api, RecvAPI: rapi, Before: before}})}) {
+											return
+										}
+									}
+								}
 							}
 						}
 					}
